@@ -243,6 +243,15 @@ func (a *ctlFn) Evaluate(_ plugintypes.RuleMetadata, txS plugintypes.Transaction
 					Msg("Invalid limit")
 				return
 			}
+			if limit <= 0 {
+				// Same constraint as WAF.Validate: with a zero or negative limit the
+				// body write functions would accept bodies uninspected or slice out of range.
+				tx.DebugLogger().Error().
+					Str("ctl", "RequestBodyLimit").
+					Str("value", a.value).
+					Msg("Invalid limit, it should be bigger than 0")
+				return
+			}
 			tx.RequestBodyLimit = limit
 		} else {
 			tx.DebugLogger().Warn().
@@ -335,6 +344,15 @@ func (a *ctlFn) Evaluate(_ plugintypes.RuleMetadata, txS plugintypes.Transaction
 					Str("value", a.value).
 					Err(err).
 					Msg("Invalid limit")
+				return
+			}
+			if limit <= 0 {
+				// Same constraint as WAF.Validate: with a zero or negative limit the
+				// body write functions would accept bodies uninspected or slice out of range.
+				tx.DebugLogger().Error().
+					Str("ctl", "ResponseBodyLimit").
+					Str("value", a.value).
+					Msg("Invalid limit, it should be bigger than 0")
 				return
 			}
 			tx.ResponseBodyLimit = limit
